@@ -64,6 +64,11 @@ func (dm *DMap) mergeFragments(part *partitions.Partition, fp *fragmentPack) err
 	f.Lock()
 	defer f.Unlock()
 
+	if f.isClosed() {
+		// Wiped out by the janitor while we were waiting for the lock. Try again with a fresh fragment.
+		return dm.mergeFragments(part, fp)
+	}
+
 	return f.storage.Import(fp.Payload, func(hkey uint64, entry storage.Entry) error {
 		return dm.fragmentMergeFunction(f, hkey, entry)
 	})
